@@ -1,18 +1,20 @@
 import Model.Bytes
 /-! GENERATED from the /repo working tree by /verif/harness (facts) on every run. Do not edit. -/
 namespace Gen.C15
-def rootAfterBlock1 : Bytes := ([47, 58, 114, 59, 47, 97, 47, 97, 58, 55, 59, 47, 98, 58, 51, 59, 47, 102, 105, 110, 97, 108, 105, 122, 101, 100, 72, 101, 105, 103, 104, 116, 58, 120, 61, 121, 59] : Bytes)
-def genesisRoot : Bytes := ([47, 58, 114, 59, 47, 97, 47, 97, 58, 55, 59, 47, 98, 58, 51, 59, 47, 102, 105, 110, 97, 108, 105, 122, 101, 100, 72, 101, 105, 103, 104, 116, 58, 120, 61, 121, 59] : Bytes)
+def rootAfterBlock1 : Bytes := ([47, 58, 114, 59, 47, 97, 47, 97, 58, 55, 59, 47, 98, 58, 51, 59, 47, 102, 105, 110, 97, 108, 105, 122, 101, 100, 72, 101, 105, 103, 104, 116, 47, 120, 58, 120, 61, 121, 59] : Bytes)
+def genesisRoot : Bytes := ([47, 58, 114, 59, 47, 97, 47, 97, 58, 55, 59, 47, 98, 58, 51, 59, 47, 102, 105, 110, 97, 108, 105, 122, 101, 100, 72, 101, 105, 103, 104, 116, 47, 120, 58, 120, 61, 121, 59] : Bytes)
 def gasExecute : Nat := 1024
 def gasInit : Nat := 1024
 def block2Error : Nat := 3
-def rootAfterRejectedBlock2 : Bytes := ([47, 58, 114, 59, 47, 97, 47, 97, 58, 55, 59, 47, 98, 58, 51, 59, 47, 102, 105, 110, 97, 108, 105, 122, 101, 100, 72, 101, 105, 103, 104, 116, 58, 120, 61, 121, 59] : Bytes)
-def rootAfterFinal1203 : Bytes := ([47, 58, 114, 59, 47, 97, 47, 97, 58, 55, 59, 47, 98, 58, 51, 59, 47, 102, 105, 110, 97, 108, 105, 122, 101, 100, 72, 101, 105, 103, 104, 116, 58, 49, 50, 48, 51, 59] : Bytes)
+def rootAfterRejectedBlock2 : Bytes := ([47, 58, 114, 59, 47, 97, 47, 97, 58, 55, 59, 47, 98, 58, 51, 59, 47, 102, 105, 110, 97, 108, 105, 122, 101, 100, 72, 101, 105, 103, 104, 116, 47, 120, 58, 120, 61, 121, 59] : Bytes)
+def rootAfterFinal1203 : Bytes := ([47, 58, 114, 59, 47, 97, 47, 97, 58, 55, 59, 47, 98, 58, 51, 59, 47, 102, 105, 110, 97, 108, 105, 122, 101, 100, 72, 101, 105, 103, 104, 116, 47, 120, 58, 120, 61, 121, 59] : Bytes)
+def finalizedValue : Bytes := ([49, 50, 48, 51] : Bytes)
 def finalZeroRejected : Nat := 1
-def genesisRootAgain : Bytes := ([47, 58, 114, 59, 47, 97, 47, 97, 58, 55, 59, 47, 98, 58, 51, 59, 47, 102, 105, 110, 97, 108, 105, 122, 101, 100, 72, 101, 105, 103, 104, 116, 58, 120, 61, 121, 59] : Bytes)
+def genesisRootAgain : Bytes := ([47, 58, 114, 59, 47, 97, 47, 97, 58, 55, 59, 47, 98, 58, 51, 59, 47, 102, 105, 110, 97, 108, 105, 122, 101, 100, 72, 101, 105, 103, 104, 116, 47, 120, 58, 120, 61, 121, 59] : Bytes)
 def badTxError1 : Nat := 1
 def badTxError2 : Nat := 2
 def badTxError3 : Nat := 3
+def badTxError4 : Nat := 3
 def valueOfAA : Bytes := ([55] : Bytes)
 def mempoolCapacity : Nat := 10000
 
